@@ -169,13 +169,29 @@ pub async fn run_poison(variant: &str, out_path: &str) -> eyre::Result<()> {
     let poison = || full_cs(a, 1, vec![mk_change("later", 1, "text", SqliteValue::Text("p".into()), 1, 1, 0, a, 1)], 0, 0, 0, ts);
     agent.tx_changes().send((poison(), ChangeSource::Sync)).await.map_err(|e| eyre::eyre!("{e}"))?;
     sleep_ms(400).await;
+    let mut early: Vec<Value> = vec![];
     if variant == "overflow" {
         for v in 2..=18u64 {
             let cs = full_cs(a, v, vec![mk_change("tests", v as i64, "text", SqliteValue::Text(format!("v{v}").into()), 1, v, 0, a, 1)], 0, 0, 0, ts);
             agent.tx_changes().send((cs, ChangeSource::Sync)).await.map_err(|e| eyre::eyre!("{e}"))?;
             sleep_ms(5).await;
         }
-        sleep_ms(500).await; // several ticks: the cache is trimmed
+        // wait (state-based, the machine may be busy) until a tick has trimmed the cache
+        let mut pending = vec![];
+        let mut trimmed = false;
+        for _ in 0..400 {
+            while let Ok(ev) = events.try_recv() {
+                if ev["ev"] == json!("ingest_trim") {
+                    trimmed = true;
+                }
+                pending.push(ev);
+            }
+            if trimmed {
+                break;
+            }
+            sleep_ms(50).await;
+        }
+        early = pending;
     }
     let later = format!("{SCHEMA}\nCREATE TABLE IF NOT EXISTS later (id INTEGER NOT NULL PRIMARY KEY, text TEXT NOT NULL DEFAULT '');");
     let (status, _) = klukai_agent::api::public::api_v1_db_schema(axum::Extension(agent.clone()), axum::Json(vec![later])).await;
@@ -197,6 +213,9 @@ pub async fn run_poison(variant: &str, out_path: &str) -> eyre::Result<()> {
     let mut trims = 0;
     let mut failed = 0;
     while let Ok(ev) = events.try_recv() {
+        early.push(ev);
+    }
+    for ev in early {
         match ev["ev"].as_str().unwrap_or("") {
             "ingest_recv" if ev["change"]["vlo"] == json!(1) => decisions.push(ev["decision"].clone()),
             "ingest_trim" => trims += 1,
